@@ -18,6 +18,7 @@ const icePath = "github.com/blugelabs/ice/v2"
 
 // World holds the loaded program, the contracts and the global SMT signature.
 type World struct {
+	RunningProp string // the property a check run is for ("" in debugging runs over all obligations)
 	Fset  *token.FileSet
 	Prog  *ssa.Program
 	Pkg   *ssa.Package
